@@ -668,11 +668,20 @@ func (x *Exec) assignTo(l ast.Expr, v Value, t types.Type, st *State) {
 		bv, bt := x.eval(l.X, st)
 		idx := x.evalT(l.Index, st)
 		base := asTerm(bv)
+		if _, isFn := v.(*FuncV); isFn {
+			// function values stored in containers are opaque
+			v = x.fresh("fn", SInt)
+		}
 		switch u := bt.Underlying().(type) {
 		case *types.Slice:
 			es := x.sortOf(u.Elem())
 			x.safety(st, "index", l, "(and (<= 0 "+idx.S+") (< "+idx.S+" "+x.slen(base).S+"))")
 			arr := x.sliceArr(st, base, es, u.Elem())
+			if x.isLocStruct(u.Elem()) {
+				// a struct value is copied into the element variable
+				x.copyStruct(st, u.Elem(), Term{"(select " + arr.S + " " + idx.S + ")", SInt}, asTerm(v))
+				return
+			}
 			x.sliceSetArr(st, base, es, Term{"(store " + arr.S + " " + idx.S + " " + asTerm(v).S + ")", arr.Sort}, u.Elem())
 		case *types.Array:
 			es := x.sortOf(u.Elem())
